@@ -421,3 +421,21 @@ def inherited_properties_are_applied_to_a_private_datatype(ctx):
                   f'`{src(c)}` applies the merged properties while the new accessible still refers to the datatype object of the declaring class: '
                   'the datatype properties that follow (e.g. max=5 of an intermediate class) are set on THAT object - defining `class C(B): p = 3` '
                   'changes the limits that every later subclass of the base class inherits', f)
+
+
+@rule('C09.R2d', min_instances=3)
+def clones_own_their_datatypes(ctx):
+    """presence: Parameter.clone stores a copy of the datatype, Command.clone a copy of the argument and of the result type (an
+    instance created from the class, or a subclass override, must not hold the class's datatype objects - setProperty /
+    set_main_unit on one would change the others)"""
+    m = ctx.m
+    for cname, attrs in ((roles.PARAMETER, ('datatype',)), (roles.COMMAND, ('argument', 'result'))):
+        f = m.method(cname, 'clone', inherited=False)
+        ctx.analysed(f)
+        for a in attrs:
+            copies = [s for t, v, s in attr_stores(f.node) if t.attr == a and isinstance(v, ast.Call) and call_attr(v) == 'copy']
+            copies += [n for n in body_walk(f.node) if isinstance(n, ast.Assign) and isinstance(n.value, ast.Call) and dotted(n.value.func) == 'dict'
+                       and any(k.arg == a and isinstance(k.value, ast.Call) and call_attr(k.value) == 'copy' for k in n.value.keywords)]
+            ctx.check(bool(copies), f'{f.qualname}:{a} is copied', f.node, f'a .copy() of the {a} is stored in the clone',
+                      f'{f.qualname} never stores a copy of `{a}`: the clone (every module instance, every subclass override) shares the '
+                      f'{a} datatype object with the class it was cloned from', f)
